@@ -50,6 +50,15 @@ class C03(Check):
     def generate(self, rng, tier, shard, nshards):
         n = 3500 if tier == 'quick' else 60000
         for k in range(n):
+            if tier == 'thorough' and k % 4 == 3:
+                # the workloads of the differential checks, with only this monitor deciding
+                from .c02 import gen_ctx
+                o = gen.GenOpts(max_depth=rng.choice([0, 1, 2]), allow_progress=False, exclude_ops=('assert_',), ctx_weight=2, tee_weight=3,
+                                no_streaming_mutation=True)
+                ctx = gen_ctx(rng, o)
+                prog = [ctx] if rng.random() < 0.5 else [['group_by', 'mod:%d' % rng.randint(2, 4), [ctx]]]
+                yield {'prog': prog, 'items': gen.gen_items(rng, n=rng.choice([0, 1, 5, 20, 40]), sorted_=(ctx[0] == 'time_split'))}
+                continue
             depth = rng.choice([1, 2, 3, 3, 4])
             opts = gen.GenOpts(max_depth=depth, ctx_weight=8, tee_weight=4, allow_progress=False, no_streaming_mutation=True)
             prog, _ = gen.gen_pipeline(rng, 'i', rng.randint(1, 4), opts)
